@@ -1,0 +1,52 @@
+//go:build verif
+// +build verif
+
+package ipfscluster
+
+// Hooks of the C18 harness (cluster life cycle soak): only compiled with the
+// "verif" build tag, additive only.
+
+import (
+	"context"
+	"time"
+
+	"github.com/ipfs/ipfs-cluster/pstoremgr"
+
+	rpc "github.com/libp2p/go-libp2p-gorpc"
+)
+
+// verifNopTracer is a Tracer that does nothing.
+type verifNopTracer struct{}
+
+func (verifNopTracer) SetClient(*rpc.Client)          {}
+func (verifNopTracer) Shutdown(context.Context) error { return nil }
+
+// VerifC18Prepare installs what NewCluster sets and VerifNewCluster leaves
+// nil although Shutdown() and ID() dereference it: a (no-op) tracer and,
+// when there is a host, a peer manager without a peerstore file. To be
+// called before the cluster is used from several goroutines.
+func (c *Cluster) VerifC18Prepare() {
+	if c.tracer == nil {
+		c.tracer = verifNopTracer{}
+	}
+	if c.peerManager == nil && c.host != nil {
+		c.peerManager = pstoremgr.New(c.ctx, c.host, "")
+	}
+}
+
+// VerifC18Ready calls ready().
+func (c *Cluster) VerifC18Ready(timeout time.Duration) { c.ready(timeout) }
+
+// VerifC18Run calls run().
+func (c *Cluster) VerifC18Run() { c.run() }
+
+// VerifC18Start starts ready() and run() exactly as the end of NewCluster
+// does: in one goroutine accounted in the cluster's wait group.
+func (c *Cluster) VerifC18Start(timeout time.Duration) {
+	c.wg.Add(1)
+	go func() {
+		defer c.wg.Done()
+		c.ready(timeout)
+		c.run()
+	}()
+}
